@@ -42,7 +42,6 @@ Oracles (tolerances fixed a priori)
 import io
 import itertools
 import math
-from pathlib import Path
 
 from .. import engine
 
@@ -1001,8 +1000,11 @@ def check_molecule(spec, rec, only=None, chunk=(0, 1), stride=1,
                 compare(ident, naming, bondmode, got, "bond-record-order")
         elif order == ident:
             got = run(ident, naming, bondmode)
-            if got is not None:
-                compare(ident, naming, bondmode, got, "names")
+            ref = base if base_mode == bondmode else run(
+                ident, base_naming, bondmode)
+            if got is not None and ref is not None:
+                _name_check(mol, rec, cls, ref, got, ident, naming, bondmode,
+                            one_case)
         else:
             got = run(order, naming, "sorted")
             if got is not None:
@@ -1015,11 +1017,14 @@ def check_molecule(spec, rec, only=None, chunk=(0, 1), stride=1,
         return
 
     c, k = chunk
+    base_sorted = base  # identity order, reference names, sorted bond records
     if c == 0:
         for bondmode in ("sorted", "reversed", "asis"):
             if bondmode == base_mode:
                 continue
             got = run(ident, base_naming, bondmode)
+            if bondmode == "sorted":
+                base_sorted = got
             if got is not None:
                 compare(ident, base_naming, bondmode, got,
                         "bond-record-order")
@@ -1032,7 +1037,7 @@ def check_molecule(spec, rec, only=None, chunk=(0, 1), stride=1,
         if oi % k != c:
             continue
         done += 1
-        first = base if order == ident else None
+        first = base_sorted if order == ident else None
         use = namings
         if order != ident and (rotnames == "all" or (
                 rotnames == "six" and n == FULL_PERM_LIMIT)):
@@ -1044,7 +1049,9 @@ def check_molecule(spec, rec, only=None, chunk=(0, 1), stride=1,
             if got is None:
                 continue
             if order == ident:
-                compare(order, naming, "sorted", got, "names")
+                if first is not None:
+                    _name_check(mol, rec, cls, first, got, order, naming,
+                                "sorted", one_case)
             elif first is None:
                 first = got
                 order_check(order, naming, got)
